@@ -3,7 +3,7 @@ import random
 from pathlib import Path
 
 from vlib import Check
-from checks.writer_common import writer_model, run_scenarios, writer_scenarios, exporter_scenarios, boundary_scenarios
+from checks.writer_common import writer_model, run_scenarios, writer_scenarios, exporter_scenarios, boundary_scenarios, pending_scenarios
 
 
 def run(tier):
@@ -13,7 +13,8 @@ def run(tier):
                 "rotation points through the real gzip/xz/plain writers and end-to-end through the exporter; each closed output "
                 "is decompressed by python zlib/lzma (single complete stream required) and split into the chunks written; TLC "
                 "compares with the scenario; chunk lengths around every multiple of 4 KiB (16 KiB quick) up to 96 KiB behind a "
-                "backlog of 384 KiB incompressible data under AddressSanitizer; distinct = scenarios")
+                "backlog of 384 KiB incompressible data under AddressSanitizer; incompressible outputs through the residues of the "
+                "compressors' chunking; sessions run during stack unwinding; distinct = scenarios")
     chk.assumptions = ["TLC + CommunityModules", "python3 zlib/lzma as the independent decompressors",
                        "driver memcmp of decompressed content against the chunks it generated"]
     for named in (True, False):
@@ -21,7 +22,9 @@ def run(tier):
             writer_model(chk, f"MCWriter(Scn1, named={named}, compressed={comp})", "Scn1", named, comp)
     writer_model(chk, "MCWriter(Scn3, named, compressed)", "Scn3", True, True)
     rng = random.Random(chk.seed * 17 + 14)
-    scs = writer_scenarios(rng, tier, big=True) + exporter_scenarios(rng, tier)
+    scs = writer_scenarios(rng, tier, big=True) + exporter_scenarios(rng, tier) + pending_scenarios(tier, kinds=("file", "fd"))
+    # the same sessions run inside a clean-up routine while an unrelated exception unwinds the stack
+    scs += [dict(sc, id=sc["id"] + 40000, unwind=True) for sc in scs if sc["id"] % 4 == 1 and sc["comp"] != "none"][: (24 if tier == "quick" else 400)]
     m = run_scenarios(chk, "c14", scs, {"C14"}, "c14")
     # chunk lengths around the fractions of the compressors' scratch buffer, behind a compressor backlog, under ASan
     m2 = run_scenarios(chk, "c14", boundary_scenarios(tier), {"C14"}, "c14b", flavor="asan")
